@@ -164,3 +164,14 @@ def mkcollection(spec, parent=None, sequence_name="chr1"):
                                 name=spec.get("name"), id=spec.get("id"), sequence_name=sequence_name,
                                 qualifiers=spec.get("qualifiers") or None, start=spec.get("start"), end=spec.get("end"),
                                 parent_or_seq_chunk_parent=parent)
+
+
+def as_container(items, kind):
+    """the writers document `collections` as an Iterable: a list, a tuple, a generator or a one-shot iterator must all do"""
+    if kind == "tuple":
+        return tuple(items)
+    if kind == "generator":
+        return (x for x in items)
+    if kind == "iterator":
+        return iter(list(items))
+    return list(items)
